@@ -273,6 +273,14 @@ def features_of(decl_chain, types=None):
 
     if decl_chain and decl_chain[0].get("parent_id"):
         tags["child"] = True
+        # what KF-C14-child-builder is about: an ancestor whose payload has a size field, or that has fields after its payload
+        for anc in decl_chain[1:]:
+            fs = anc.get("fields", [])
+            if any(f["kind"] == "size_field" and f.get("field_id") in ("_payload_", "_body_") for f in fs):
+                tags["ancestor_sized_or_trailing"] = True
+            pi = [k for k, f in enumerate(fs) if f["kind"] in ("payload_field", "body_field")]
+            if pi and pi[0] + 1 < len(fs):
+                tags["ancestor_sized_or_trailing"] = True
     for d in reach:
         fs = d["fields"]
         for f in fs:
